@@ -212,6 +212,27 @@ class _Numbering:
         return out
 
 
+def _deterministic_chain(ops):
+    """keep the VALUES of a chain a function of its input: (1) an order-sensitive operator (cumsum, shift) after an operator
+    that leaves the row order inside partitions unspecified (disk shuffle, joins) computes other values on every run;
+    (2) frame[mask] / assign over the output of map_partitions(f, other_frame) on a source with unknown divisions is aligned
+    through a disk shuffle by index (the two operands are not recognised as co-aligned), same effect - and with the
+    duplicate index labels of read_csv the alignment itself is ambiguous (see notes/open_observations.md)"""
+    out = []
+    unordered = aligned = False
+    for o in ops:
+        if o in ("cumsum", "shift1") and unordered:
+            o = "add1"
+        if o in ("assign", "filter") and aligned:
+            o = "add1" if o == "assign" else "proj"
+        if o in ("shuffle_disk", "bcast_join", "merge_small"):
+            unordered = True
+        if o == "mapparts_small":
+            aligned = True
+        out.append(o)
+    return out
+
+
 def replay_group(group):
     """group = {source, chain (ops), sels: [...], heads: [...], tails: [...], tid0}; returns list of traces"""
     scratch = tempfile.mkdtemp(prefix="verif_c11.", dir=os.environ.get("VERIF_SCRATCH"))
@@ -332,6 +353,7 @@ def run(tier="quick", seed=0, replay_path=None):
                 ops = [rnd.choice(VARIANTS[kd]) for kd in chain]
                 if src == "timeseries" and any(o in ("merge_small", "bcast_join") for o in ops):
                     ops = [o if o not in ("merge_small", "bcast_join") else "addmax" for o in ops]
+                ops = _deterministic_chain(ops)
                 heads = [(n, k) for n in t["head_ns"] for k in (1, 2, -1)] + [(3, NP + 3)]
                 groups.append({"source": src, "ops": ops, "kinds": list(chain), "NP": NP, "sels": sels + [[NP + 5]],
                                "delayed": True, "heads": heads, "tails": t["tails"]})
